@@ -125,7 +125,7 @@ pub fn lits(sty: usize) -> Vec<(String, MVal)> {
         "INT" => own(vec![("INT#7", n(7)), ("INT#-12", n(-12)), ("INT#300", n(300))]),
         "DINT" => own(vec![("DINT#70000", n(70000)), ("DINT#-1", n(-1)), ("DINT#9", n(9))]),
         "LINT" => own(vec![("LINT#-5000000000", n(-5_000_000_000)), ("LINT#42", n(42))]),
-        "USINT" => own(vec![("USINT#7", n(7)), ("USINT#200", n(200))]),
+        "USINT" => own(vec![("USINT#7", n(7)), ("USINT#20", n(20))]),
         "UINT" => own(vec![("UINT#40000", n(40000)), ("UINT#3", n(3))]),
         "UDINT" => own(vec![("UDINT#3000000000", n(3_000_000_000)), ("UDINT#11", n(11))]),
         "ULINT" => own(vec![("ULINT#10000000000", n(10_000_000_000)), ("ULINT#1", n(1))]),
